@@ -143,7 +143,7 @@ class Gen17:
         for _ in range(n_episodes):
             name = rnd.choice([b"web", b"api"])
             ep = rnd.choice(["redeploy", "redeploy", "edge", "bad", "pause", "remove", "conflict", "invalid", "rollout",
-                             "simple", "overlap", "overlap2"])
+                             "simple", "overlap", "overlap2", "rollout_remove"])
             if self.yields and rnd.random() < 0.3:
                 self.steps.append({"op": "arm", "point": rnd.choice(m5.POINTS), "n": 1})
             if ep in ("redeploy", "edge", "bad"):
@@ -177,6 +177,19 @@ class Gen17:
                 dt, drt = self.deploy(name, rnd.choice(["good", "good", "edge", "bad"]), op="rollout_deploy")
                 self.gap(dt, dt + drt)
                 self.simple("rollout_set", name)
+            elif ep == "rollout_remove" and name in self.live:
+                # a service that HAS rollout targets - with a split in force, after `rollout stop`, or never split - is removed:
+                # the probing of the rollout targets must end too
+                dt, drt = self.deploy(name, "good", op="rollout_deploy")
+                self.gap(dt + drt)
+                mode = rnd.choice(["none", "set", "set_stop"])
+                if mode != "none":
+                    self.simple("rollout_set", name)
+                if mode == "set_stop":
+                    self.simple("rollout_stop", name)
+                self.simple("remove", name)
+                self.live.discard(name)
+                self.gap(12 * INTERVAL, 12 * INTERVAL)
             elif ep == "simple":
                 self.simple(rnd.choice(["rollout_set", "rollout_stop", "resume", "remove" if name not in self.live else "resume"]), name)
                 self.gap()
